@@ -481,11 +481,17 @@ pub fn run_sdd_caches(case: &SddCacheCase, st: &mut Stats) -> CaseResult {
     }
     // cold: selected results recomputed in a fresh builder from their dependency cone only
     let mut colds = 0u64;
-    for sel in case.cold.iter().take(4) {
-        if steps.is_empty() {
-            break;
-        }
-        let (target, _, _) = steps[pick(*sel, steps.len())].clone();
+    // besides the sampled results: every constant result of an if-then-else-shaped operation on decision nodes (up to
+    // six per case) - a cached constant is where a lost complement flag turns true into false
+    let const_targets: Vec<usize> = steps
+        .iter()
+        .filter(|(idx, args, op)| matches!(op, SOp::Ite(..) | SOp::Iff(..) | SOp::Xor(..)) && run.pool[*idx].0.is_const() && args.iter().any(|a| !run.pool[*a].0.is_const() && !run.pool[*a].0.is_var()))
+        .map(|(idx, _, _)| *idx)
+        .take(6)
+        .collect();
+    st.add("sdd.constant_ite_results_recomputed_cold", const_targets.len() as u64);
+    let sampled: Vec<usize> = case.cold.iter().take(4).filter(|_| !steps.is_empty()).map(|sel| steps[pick(*sel, steps.len())].0).collect();
+    for target in sampled.into_iter().chain(const_targets.into_iter()) {
         // dependency cone
         let mut cone: BTreeSet<usize> = BTreeSet::new();
         let mut stack = vec![target];
